@@ -23,7 +23,7 @@ NCPU = int(os.environ.get('CVS_JOBS', str(os.cpu_count() or 4)))
 _sem = threading.BoundedSemaphore(NCPU)
 
 CHECK_FLAGS = ['--bounds-check', '--pointer-check', '--pointer-overflow-check', '--signed-overflow-check',
-               '--div-by-zero-check']
+               '--div-by-zero-check', '--no-malloc-may-fail']
 
 CONTRACT_CLASSES = ('postcondition', 'precondition', 'assertion', 'loop_invariant_base', 'loop_invariant_step',
                     'loop_decreases', 'loop_assigns', 'loop_step_unwinding', 'assigns')
@@ -267,6 +267,8 @@ def instrument(unit, task, scratch, tag):
         cmd += ['--loop-contracts-file', lj, '--apply-loop-contracts']
     cmd += [a, b]
     out = tool(cmd, scratch, 'goto-instrument --dfcc')
+    m = re.search(r'assigns clauses of at most (\d+) targets', out)
+    task['_min_unwind'] = int(m.group(1)) + 2 if m else 0
     if re.search(r'syntax error|parse error', out, re.I):
         raise Undecided('goto-instrument reported a parse problem:\n' + out[-2000:])
     return b
@@ -276,7 +278,7 @@ def instrument(unit, task, scratch, tag):
 # cbmc
 
 def common_flags(task):
-    fl = CHECK_FLAGS + ['--object-bits', str(task.get('object_bits', 8)), '--unwind', str(task.get('unwind', 12)),
+    fl = CHECK_FLAGS + ['--object-bits', str(task.get('object_bits', 8)), '--unwind', str(max(task.get('unwind', 12), task.get('_min_unwind', 0))),
                         '--unwinding-assertions']
     us = task.get('_unwindset')
     if us:
@@ -355,6 +357,9 @@ def run_props(task, gb, scratch, props, timeout, solver, trace=False, env=None):
         return None, 'timeout', dt
     res, msgs = parse_cbmc(out)
     if res is None:
+        if 'too many addressed objects' in out and task.get('object_bits', 8) < 14:
+            task['object_bits'] = task.get('object_bits', 8) + 2
+            return run_props(task, gb, scratch, props, timeout, solver, trace, env)
         return None, 'unparsable/err: ' + msgs[-500:], dt
     return res, msgs, dt
 
@@ -449,8 +454,10 @@ def get_trace(task, gb, scratch, prop, timeout=300):
 
 
 def trace_values(trace):
-    """Last assigned value of every named lhs in the trace (echo globals, harness locals)."""
+    """Values of named lhs in the trace.  Echo globals (e_*) take their first assignment made by wrapper code
+    (a callee replaced by its contract havocs them again later); everything else takes the last assignment."""
     vals = {}
+    fixed = set()
     for st in trace or []:
         if st.get('stepType') != 'assignment':
             continue
@@ -458,9 +465,22 @@ def trace_values(trace):
         v = st.get('value', {})
         if lhs is None or st.get('hidden'):
             continue
+        fn = st.get('sourceLocation', {}).get('function', '')
         d = v.get('data')
         if d is None and 'elements' in v:
             continue
+        if isinstance(d, str):
+            m = re.search(r'/\*\s*(-?\d+)', d)
+            if m:
+                d = m.group(1)
+        if lhs.startswith('e_'):
+            if fn.startswith('contract::') or fn.startswith('__CPROVER') or fn == '':
+                if lhs not in vals:
+                    vals[lhs] = d if d is not None else v.get('name')
+                continue
+            if lhs in fixed:
+                continue
+            fixed.add(lhs)
         vals[lhs] = d if d is not None else v.get('name')
         if 'binary' in v and v.get('name') in ('float', 'double'):
             vals[lhs + '#bin'] = v['binary']
